@@ -676,13 +676,24 @@ class Exec:
                     return self.from_bytes(ety, b[i * sz:(i + 1) * sz])
         return mk("index", v, idx)
 
-    def from_bytes(self, ty, hx, fields=None):
+    def from_bytes(self, ty, hx, fields=None, fnptrs=None, base=0):
+        """fnptrs: {byte offset in the whole constant: function item term}; base: offset of hx within the whole constant"""
+        if fnptrs and (ty.startswith("fn(") or ty.startswith("for<") or ty.startswith("unsafe fn(") or ty.startswith("extern ")) and base in fnptrs:
+            return fnptrs[base]
+        if isinstance(fields, dict) and fields.get("array") and ty.startswith("[") and (fnptrs or fields.get("elem_fields")):
+            m_ = re.match(r"^\[(.*); (\d+)\]$", ty)
+            if m_:
+                n_ = int(m_.group(2)); esz = int(fields["elem_size"]); ety = F.norm_ty(fields["elem_ty"])
+                if (not ety.startswith("TwoFloat") and ety != "f64") or fnptrs:
+                    return mk("agg", ("array",), tuple(self.from_bytes(ety, hx[2 * i * esz:2 * (i + 1) * esz], fields.get("elem_fields"), fnptrs, base + i * esz) for i in range(n_)))
+        if isinstance(fields, dict):
+            fields = None
         if fields and ty not in ("TwoFloat", "f64") and not ty.startswith("[") and not ty.startswith("core::ops::RangeInclusive<"):
             # a tuple / struct constant taken apart by the layout the compiler gave it
             parts = []
             for fd in fields:
                 fty = F.norm_ty(fd["ty"]); o_ = 2 * int(fd["off"]); n_ = 2 * int(fd["size"])
-                parts.append(self.from_bytes(fty, hx[o_:o_ + n_], fd.get("fields")))
+                parts.append(self.from_bytes(fty, hx[o_:o_ + n_], fd.get("fields"), fnptrs, base + int(fd["off"])))
             if ty.startswith("("):
                 return mk("agg", ("tuple",), tuple(parts))
             return mk("agg", ("adt", ty, 0, ty.split("::")[-1]), tuple(parts))
@@ -846,7 +857,18 @@ class Exec:
         if k == "zst":
             return mk("unit") if ty == "()" else mk("zst", canon_generic(ty))
         if k == "bytes" and "hex" in v:
-            return self.from_bytes(ty, v["hex"], v.get("fields"))
+            fp_ = None
+            if v.get("fnptrs"):
+                fp_ = {}
+                for e_ in v["fnptrs"]:
+                    lb_ = self.facts.by_key.get(e_["key"]) if e_.get("local") else None
+                    if lb_ is not None:
+                        nm_ = lb_.ident()
+                    else:
+                        ga_ = [canon_generic(a_) for a_ in e_.get("args", [])]
+                        nm_ = F.norm_path(e_["def"]) + (("<" + ",".join(ga_) + ">") if ga_ else "")
+                    fp_[int(e_["off"])] = mk("fnitem", nm_)
+            return self.from_bytes(ty, v["hex"], v.get("fields"), fp_)
         if k == "slice" and "str" in v:
             return mk("str", v["str"])
         if k == "strs" and "items" in v:
@@ -905,6 +927,9 @@ class Exec:
                     x, y = F.f64_from_bits(cint(a)), F.f64_from_bits(cint(b))
                     try:
                         r = {"Add": x + y, "Sub": x - y, "Mul": x * y, "Div": (x / y) if y != 0 else None}[op]
+                        if op == "Div" and y == 0 and x != 0 and x == x:
+                            import math as _m      # a non-zero number over a signed zero: the infinity with the product of the signs
+                            r = _m.copysign(float("inf"), _m.copysign(1.0, x) * _m.copysign(1.0, y))
                     except OverflowError:
                         r = None
                     if r is not None and r == r:
@@ -957,6 +982,12 @@ class Exec:
                     return self.binop("BitAnd", ty, self.binop("Shr", ty, a[3], mk_const("u32", sh)), mk_const(ty, cint(a[4]) >> sh))
             if base == "Shr" and cb == 0 and not with_ovf:
                 return a
+            if base in ("BitAnd", "BitOr", "BitXor") and tag(a) == "i" and a[1] == base.lower() and a[2] == ty and (is_const(a[4]) or is_const(a[3])):
+                # (x & c1) & c2 == x & (c1 & c2), likewise | and ^
+                x_, c1_ = (a[3], a[4]) if is_const(a[4]) else (a[4], a[3])
+                m_ = (1 << INT_BITS[ty]) - 1
+                cc = {"BitAnd": cint(c1_) & cint(b), "BitOr": cint(c1_) | cint(b), "BitXor": cint(c1_) ^ cint(b)}[base] & m_
+                return self.binop(base, ty, x_, mk_const(ty, cc))
             if base == "Div" and ty.startswith("u") and cb > 1 and cb & (cb - 1) == 0 and not with_ovf:
                 # x / 2^k == x >> k for unsigned x
                 return self.binop("Shr", ty, a, mk_const("u32", cb.bit_length() - 1))
@@ -1015,10 +1046,17 @@ class Exec:
             return tag(t) == "call" and t[1] == "libm::fabs" and len(t) == 3
         def is_inf(t):
             return is_const(t) and t[1] == "f64" and cint(t) == 0x7FF0000000000000
+        def is_zero(t):
+            return is_const(t) and t[1] == "f64" and cint(t) in (0, 1 << 63)
         for x, k, o in ((a, b, op), (b, a, {"lt": "gt", "gt": "lt", "le": "ge", "ge": "le", "eq": "eq", "ne": "ne"}[op])):
             if is_abs(x) and is_inf(k):
                 if o == "eq": return mk("call", INF_, x[2])
                 if o == "lt": return mk("call", FIN_, x[2])
+            if is_abs(x) and is_zero(k) and o in ("eq", "ne"):
+                return mk("cmp", o, "f64", x[2], f64c(0.0))      # |x| == 0  is  x == 0
+            if tag(x) == "f" and x[1] == "sub" and x[2] is x[3] and is_zero(k) and o in ("eq", "ne"):
+                fin_ = mk("call", FIN_, x[2])                      # x - x is 0 for a finite x and NaN otherwise
+                return fin_ if o == "eq" else mk("not", fin_)
             # copysign(c, x) against zero, c a positive constant: the sign bit of x
             if tag(x) == "call" and x[1] == "libm::copysign" and len(x) == 4 and is_const(x[2]) and is_const(k) and k[1] == "f64" and cint(k) in (0, 1 << 63) \
                     and 0 < cint(x[2]) < 0x7FF0000000000000:
@@ -1029,18 +1067,26 @@ class Exec:
 
     def sign_bit_test(self, op, a, b):
         """(x.to_bits() >> 63) == 1, x.to_bits() & (1 << 63) != 0 and the like: the sign bit of x"""
-        def bits_of(t):
-            return t[2] if tag(t) == "call" and t[1] == "core::f64::<impl f64>::to_bits" and len(t) == 3 else None
+        def sign_of(t):
+            """bool term: bit 63 of the u64 term t is set (t built from to_bits(..) with |, ^, &)"""
+            if tag(t) == "call" and t[1] == "core::f64::<impl f64>::to_bits" and len(t) == 3:
+                return mk("call", "core::f64::<impl f64>::is_sign_negative", t[2])
+            if tag(t) == "i" and t[2] == "u64" and t[1] in ("bitor", "bitxor", "bitand") and not is_const(t[3]) and not is_const(t[4]):
+                p_, q_ = sign_of(t[3]), sign_of(t[4])
+                if p_ is not None and q_ is not None:
+                    return mk("cmp", "ne", "bool", p_, q_) if t[1] == "bitxor" else mk("i", t[1], "bool", p_, q_)
+            return None
+        bits_of = sign_of
         for x, k in ((a, b), (b, a)):
             if not is_const(k):
                 continue
             kv = cint(k); neg_ = None
-            if tag(x) == "i" and x[1] == "shr" and bits_of(x[3]) is not None and is_const(x[4]) and cint(x[4]) == 63 and kv in (0, 1):
-                neg_ = (mk("call", "core::f64::<impl f64>::is_sign_negative", bits_of(x[3])), kv == 1)
+            if tag(x) == "i" and x[1] == "shr" and is_const(x[4]) and cint(x[4]) == 63 and kv in (0, 1) and sign_of(x[3]) is not None:
+                neg_ = (sign_of(x[3]), kv == 1)
             if tag(x) == "i" and x[1] == "bitand" and kv in (0, 1 << 63):
                 for u, m in ((x[3], x[4]), (x[4], x[3])):
-                    if bits_of(u) is not None and is_const(m) and cint(m) == 1 << 63:
-                        neg_ = (mk("call", "core::f64::<impl f64>::is_sign_negative", bits_of(u)), kv != 0)
+                    if is_const(m) and cint(m) == 1 << 63 and sign_of(u) is not None:
+                        neg_ = (sign_of(u), kv != 0)
             if neg_ is not None:
                 t_, when_set = neg_
                 pos = (op == "eq") == when_set
@@ -1337,9 +1383,11 @@ class Exec:
         return has_exit
 
     def slice_view(self, st, v):
-        """(carray, lo, hi) of a constant table or constant-range slice of one"""
+        """(carray, lo, hi) of a constant table or constant-range slice of one; (array, 0, n) of a local array value"""
         from . import idioms
         v = self.deref_value(st, v)
+        if tag(v) == "agg" and v[1][0] == "array" and all(x is not None for x in v[2]):
+            return (v, 0, len(v[2]))
         return idioms.slice_of(v)
 
     def iterator_foreign(self, st, base, r, args, raw_args):
@@ -1348,7 +1396,8 @@ class Exec:
         if base.startswith("core::slice::<impl [T]>::iter") and len(args) == 1:
             sl = self.slice_view(st, args[0])
             if sl is not None:
-                self.iterated.append(sl)
+                if tag(sl[0]) == "carray":
+                    self.iterated.append(sl)
                 return mk("sliceiter", sl[0], sl[1], sl[2], 0)
             return None
         if (base.startswith("core::slice::<impl [T]>::split_last") or base.startswith("core::slice::<impl [T]>::split_first")) and len(args) == 1:
@@ -1467,6 +1516,22 @@ class Exec:
             el = self.index(carr, mk_const("usize", idx))
             loc = st.alloc(); st.store[loc] = el
             return mk("agg", ("adt", "core::option::Option", 1, "Some"), (mk("ref", loc, ()),))
+        m_aa = re.search(r"Iterator>::(all|any)$|^core::iter::Iterator::(all|any)$", base)
+        if m_aa and len(args) == 2 and tag(a0) == "sliceiter":
+            which = m_aa.group(1) or m_aa.group(2)
+            carr, lo, hi, rev = a0[1], a0[2], a0[3], a0[4]
+            clo = self.deref_value(st, args[1])
+            cb = self.facts.by_key.get(clo[1][1]) if tag(clo) == "agg" and clo[1][0] == "closure" else None
+            if cb is not None and hi - lo <= 16:
+                sub = Exec(self.facts, self.policy, max_nodes=2000)
+                leaf = sub.run_body(cb)
+                if leaf[0] == "leaf" and not leaf[2]:
+                    acc = None
+                    for i in (range(hi - 1, lo - 1, -1) if rev else range(lo, hi)):
+                        el = self.index(carr, mk_const("usize", i))
+                        v_ = _subst_closure(leaf[1], clo, el, mk("unit"))
+                        acc = v_ if acc is None else self.binop("BitAnd" if which == "all" else "BitOr", "bool", acc, v_)
+                    return acc if acc is not None else mk_const("bool", 1 if which == "all" else 0)
         is_rfold = base.endswith("Iterator>::rfold") or base.startswith("core::iter::DoubleEndedIterator::rfold")
         if (base.endswith("Iterator>::fold") or base.startswith("core::iter::Iterator::fold") or is_rfold) and len(args) == 3:
             carr, lo, hi, rev = a0[1], a0[2], a0[3], a0[4]
@@ -1532,6 +1597,17 @@ class Exec:
                     and all(is_const(x) and x[1] in INT_BITS for x in (rng[2], rng[3], item)) and rng[2][1] == item[1] == rng[3][1]:
                 ty_ = item[1]
                 return mk_const("bool", int(to_signed(ty_, cint(rng[2])) <= to_signed(ty_, cint(item)) <= to_signed(ty_, cint(rng[3]))))
+        mp_ = re.match(r"^core::num::<impl (\w+)>::pow$", base)
+        if mp_ and mp_.group(1) in INT_BITS and len(args) == 2:
+            ty_ = mp_.group(1); b_ = self.deref_value(st, args[0]); e_ = self.deref_value(st, args[1])
+            if is_const(b_) and is_const(e_):
+                v_ = to_signed(ty_, cint(b_)) ** cint(e_)
+                if in_range(ty_, v_):
+                    return mk_const(ty_, from_signed(ty_, v_))
+            elif is_const(b_) and cint(b_) == 2 and ty_.startswith("u"):
+                # 2^k for an unsigned type is 1 << k (it overflows - a panic with overflow checks - exactly when k >= BITS;
+                # the panic-site analysis asks for k < BITS at this call)
+                return self.binop("Shl", ty_, mk_const(ty_, 1), e_)
         if base == "core::convert::identity" and len(args) == 1:
             return args[0]
         if base == "<I as core::iter::IntoIterator>::into_iter" and len(args) == 1:
@@ -1555,6 +1631,12 @@ class Exec:
                 b_ = cint(v)
                 if not ((b_ >> 52) & 0x7ff == 0x7ff and b_ & ((1 << 52) - 1)):      # not a NaN pattern
                     return mk_const("f64", b_)
+            # from_bits(to_bits(x) ^ (1 << 63)) is -x exactly; `| (1 << 63)` is -|x|
+            if tag(v) == "i" and v[1] in ("bitxor", "bitor") and v[2] == "u64":
+                for x, m in ((v[3], v[4]), (v[4], v[3])):
+                    if is_const(m) and cint(m) == 1 << 63 and tag(x) == "call" and x[1] == "core::f64::<impl f64>::to_bits" and len(x) == 3:
+                        inner = x[2] if v[1] == "bitxor" else mk("call", "libm::fabs", x[2])
+                        return self.unop("Neg", "f64", inner)
             # from_bits(to_bits(x) & 0x7fff_ffff_ffff_ffff) is |x| exactly (libm::fabs)
             if tag(v) == "i" and v[1] == "bitand" and v[2] == "u64":
                 for x, m in ((v[3], v[4]), (v[4], v[3])):
@@ -1649,7 +1731,10 @@ class Exec:
             # the pointer-sized types are as wide as the arm of a `match size_of::<usize>()` this path is in (else as on this target)
             pbits = 64
             for k_, v_ in st.known.items():
-                if tag(k_) == "call" and k_[1] in ("core::mem::size_of<isize>", "core::mem::size_of<usize>") and type(v_) is int and v_ in (1, 2, 4, 8, 16):
+                k0_ = k_
+                while tag(k0_) == "cast" and k0_[1] == "IntToInt":
+                    k0_ = k0_[4]      # `size_of::<isize>() as u64`
+                if tag(k0_) == "call" and k0_[1] in ("core::mem::size_of<isize>", "core::mem::size_of<usize>") and type(v_) is int and v_ in (1, 2, 4, 8, 16):
                     pbits = 8 * v_
             PTR = {"usize": "u%d" % pbits, "isize": "i%d" % pbits}
             def rng(ty):
@@ -1721,8 +1806,20 @@ class Exec:
                 if lb is not None:
                     fd_ = {"def": lb.path, "res": {"def": lb.path, "key": lb.key, "args": [], "local": True}}
                 else:
-                    base_ = nm.split("<")[0]
-                    fd_ = {"def": base_, "res": {"def": base_, "args": [], "local": False}}
+                    base_, _, rest_ = nm.partition("<")
+                    targs_ = []
+                    if rest_.endswith(">") and not base_.startswith("<"):
+                        depth_ = 0; cur_ = ""
+                        for ch_ in rest_[:-1]:
+                            if ch_ == "," and depth_ == 0:
+                                targs_.append(cur_.strip()); cur_ = ""
+                            else:
+                                depth_ += ch_ in "<(["; depth_ -= ch_ in ">)]"; cur_ += ch_
+                        if cur_.strip():
+                            targs_.append(cur_.strip())
+                    else:
+                        base_ = nm
+                    fd_ = {"def": base_, "res": {"def": base_, "args": targs_, "local": False}}
                 t = dict(t, f=fd_)
             else:
                 name, callee, r = "indirect", None, None
@@ -1749,6 +1846,9 @@ class Exec:
                 r2 = {"def": fdesc["def"], "args": fdesc.get("args", []), "local": False}
                 pv = self.iterator_foreign(st, F.norm_path(fdesc["def"]), r2, args, args)
             if pv is not None:
+                if self.hooks is not None and r is not None and re.match(r"^core::num::<impl \w+>::pow$", F.norm_path(r["def"])) and hasattr(self.hooks, "on_call"):
+                    # modelled as a shift, but the call itself can panic (overflow): the panic-site analysis has to see it
+                    self.hooks.on_call(self, st, fr, t, name, None, [self.deref_value(st, a_) for a_ in args])
                 self.write_place(st, fr, t["dest"], pv)
                 return None
             cf = self.cond_foreign(st, r, args) if t["t"] is not None else None
